@@ -31,10 +31,51 @@ def impl_runner(cases, ctx, rundir):
     rc, out, binary = build_binary()
     if rc != 0:
         return {}, ["the nun-db binary does not build: %s" % out[-600:]]
-    return crash.run_cases(cases, ctx.drv, rundir, "crashc", binary=binary, bin_stride=9)
+    return crash.run_cases(cases, ctx.drv, rundir, "crashc", binary=binary, bin_stride=9, env_of=rot_env, no_kills_of=is_rot)
+
+
+def is_rot(case):
+    return case[0].startswith("q")
+
+
+def rot_env(case):
+    # rotation family: a log file is full after one record, so every start of a process with a non-empty current file
+    # moves it to the rotated files (Oplog::get_log_file_append_mode)
+    return {"NUN_MAX_OP_LOG_SIZE": "250"} if is_rot(case) else {}
+
+
+def _dedup_log(m):
+    out = []
+    for r in (m.group(1).split(",") if m.group(1) else []):
+        if not out or out[-1] != r:
+            out.append(r)
+    return " oplog=[%s]" % ",".join(out)
+
+
+def reduce_model(case, drv, obs):
+    """rotation family: Oplog::last_op_time reads the current file only (C12's recorded finding) and the record that fills a
+    file is written again into the next one (by design, C12): `last=`, the current file's length and consecutive copies
+    of a record are not compared once the log rotates"""
+    if not is_rot(case):
+        return obs
+    out = []
+    for l in obs:
+        l = re.sub(r" last=\d+", " last=*", l)
+        l = re.sub(r"oplog-nun\.op:\d+:\*", "oplog-nun.op:*", l)
+        l = re.sub(r" oplog=\[(.*?)\]", _dedup_log, l)
+        out.append(l)
+    return out
+
+
+def reconcile(case, drv, iobs, mobs, alts=()):
+    return reduce_model(case, drv, iobs), []
 
 
 augment = crash.augment_case
+
+
+def shrink_budget(case):
+    return 0 if is_rot(case) else 12
 
 
 def extra_stats(cases, impl):
@@ -91,6 +132,20 @@ def gen_cases(tier, seed):
     ]
     for i, segs in enumerate(fixed):
         cases.append(case("f%d" % i, segs)); dist["fixed"] += 1
+    # rotation family (no kill enumeration: every segment simply ends without a shutdown): the log is spread over rotated files
+    rot = [
+        [["create-db d1 tok1 newer", "use-db d1 tok1", "set a 1", "set b 2", "snapshot false d1", "F"],
+         ["use-db d1 tok1", "set c 3"],
+         ["use-db d1 tok1", "set d 4", "snapshot false d1", "F"],
+         ["use-db d1 tok1", "set e 5"]],
+        [["create-db d1 tok1 newer", "use-db d1 tok1", "set a 1", "S"],
+         ["use-db d1 tok1", "set b 2", "S"],
+         ["use-db d1 tok1", "set c 3"],
+         ["use-db d1 tok1", "set d 4", "snapshot false d1", "F", "set e 5"]],
+    ]
+    for i, segs in enumerate(rot):
+        cases.append(case("q%d" % i, segs))
+    dist["rotation"] = len(rot)
     nrand = {"quick": 40, "thorough": 500, "search": 24}[tier]
     for i in range(nrand):
         nseg = rng.choice([2, 2, 3, 3, 4])
